@@ -139,10 +139,18 @@ ADD_PROOF = """
       cases h1 : decide (a.z = {one}) <;> cases h2 : decide (b.z = {one})
       · simp only [G.add_ff, FieldElement.is_zero, FieldElement.squared, FieldElement.double]
         repeat' split
-        all_goals simp_all
+        all_goals (try simp_all)
+        all_goals (try simp only [Fq2.squared_eq_mul, Fq2.double_eq, Fq.squared_eq_mul', Fq.double_eq', G.mk.injEq])
+        all_goals (try (repeat' apply And.intro))
+        all_goals (try trivial)
+        all_goals (try ring1)
       · simp only [G.add_ft, FieldElement.is_zero, FieldElement.squared, FieldElement.double]
         repeat' split
-        all_goals simp_all
+        all_goals (try simp_all)
+        all_goals (try simp only [Fq2.squared_eq_mul, Fq2.double_eq, Fq.squared_eq_mul', Fq.double_eq', G.mk.injEq])
+        all_goals (try (repeat' apply And.intro))
+        all_goals (try trivial)
+        all_goals (try ring1)
       · -- (true, false): `other + self` re-enters `add` and takes the (false, true) arm
         show G.add b a = G.add_ft b a
         unfold G.add
@@ -150,7 +158,11 @@ ADD_PROOF = """
         simp only [hb, ha, Bool.false_eq_true, if_false, e1, e3, h1, h2]
       · simp only [G.add_tt, FieldElement.is_zero, FieldElement.squared, FieldElement.double]
         repeat' split
-        all_goals simp_all
+        all_goals (try simp_all)
+        all_goals (try simp only [Fq2.squared_eq_mul, Fq2.double_eq, Fq.squared_eq_mul', Fq.double_eq', G.mk.injEq])
+        all_goals (try (repeat' apply And.intro))
+        all_goals (try trivial)
+        all_goals (try ring1)
     · simp
   · simp"""
 
